@@ -407,3 +407,11 @@ func uparWF(l *URIParamsLst) bool {
 func uhdrWF(l *URIHdrsLst) bool {
 	return 0 <= l.N && l.N < 1<<40 && blockSep(l, l.Hdrs) && forall(l.N+1, len(l.Hdrs), func(k int) bool { return uriHdrZero(&l.Hdrs[k]) })
 }
+
+// lwsAt: position k is linear white space: SP, HT, or a line end (CR, LF or CRLF) that is folded, i.e.
+// followed by SP or HT. (For positions inside the scanned part of a buffer the look-ahead bytes exist.)
+func lwsAt(buf []byte, k int) bool {
+	return isWS(buf[k]) ||
+		(isCRLF(buf[k]) && k+1 < len(buf) && isWS(buf[k+1])) ||
+		(buf[k] == '\r' && k+2 < len(buf) && buf[k+1] == '\n' && isWS(buf[k+2]))
+}
